@@ -352,6 +352,9 @@ class Model:
         # initial buffer: source 0 through yyin (or per driver "init")
         init = d.get("init", [("open", 0)])
         for op in init:
+            if op[0] in ("push", "pop", "top"):
+                self.run_ops([op], True)
+                continue
             self.do_x(op)
         after = d.get("after", [])
         atend = list(d.get("atend", []))
